@@ -22,7 +22,7 @@ EXTENDS Hpack
 
 CONSTANTS Fields,      \* set of <<name, value>> byte-string pairs the application sends
           Limits,      \* table sizes used by SETTINGS changes and size updates
-          MaxBlocks, MaxFields, SplitHuff   \* SplitHuff: choose the Huffman flag of name and value separately
+          MaxBlocks, MaxFields, MaxUpd, SplitHuff   \* SplitHuff: choose the Huffman flag of name and value separately
 
 VARIABLES enc,    \* encoder's table: same record shape as the decoder state (limit = what the peer allows)
           dec,    \* decoder state
@@ -53,7 +53,7 @@ Transmit(ins) ==
 
 \* the decoder side advertises a new limit (between blocks); the encoder learns it at once
 Settings(n) ==
-  /\ bb = <<>> /\ nb < MaxBlocks /\ pend.n < 2
+  /\ bb = <<>> /\ nb < MaxBlocks /\ pend.n < MaxUpd
   /\ dec' = [dec EXCEPT !.limit = n]
   /\ dec0' = [dec0 EXCEPT !.limit = n]
   /\ enc' = [enc EXCEPT !.limit = n]
@@ -63,7 +63,7 @@ Settings(n) ==
 \* size update at the start of a block: the first one after SETTINGS changes is at most the
 \* smallest limit seen, any further one just has to respect the current limit
 Update(n) ==
-  /\ bf = <<>> /\ nu < 2 /\ nb < MaxBlocks
+  /\ bf = <<>> /\ nu < MaxUpd /\ nb < MaxBlocks
   /\ n <= enc.limit
   /\ pend.n > 0 => n <= pend.min
   /\ LET t == Transmit(SizeUpdate(n)) IN
@@ -121,4 +121,21 @@ SizeWithinLimit    == /\ dec.size = TableSize(dec.dyn) /\ dec.size <= dec.max
                       /\ pend.n = 0 => dec.max <= dec.limit
 BlockDecode        == LET d == DecodeBlock(dec0, bb) IN
                         d.cls = "" /\ d.out = bf /\ d.st = dec /\ Len(d.upd) = nu
+
+-----------------------------------------------------------------------------
+(* Constant values for the .cfg files (nested tuples cannot be written there). *)
+\* :method GET (static 2, full match)  :path /x (static name 4, 5)  a: b (34 octets)  a: "" (33)
+\* bb: 31 x "c" (65 octets: larger than a 64-octet table)
+ModelFields == { << <<58,109,101,116,104,111,100>>, <<71,69,84>> >>,
+                 << <<58,112,97,116,104>>, <<47,120>> >>,
+                 << <<97>>, <<98>> >>,
+                 << <<97>>, <<>> >>,
+                 << <<98,98>>, [k \in 1..31 |-> 99] >> }
+ModelFieldsSmall == { << <<58,109,101,116,104,111,100>>, <<71,69,84>> >>,
+                      << <<58,112,97,116,104>>, <<47,120>> >>,
+                      << <<97>>, <<98>> >>,
+                      << <<98,98>>, [k \in 1..31 |-> 99] >> }
+ModelFieldsTiny == { << <<58,112,97,116,104>>, <<47,120>> >>,
+                     << <<97>>, <<98>> >>,
+                     << <<98,98>>, [k \in 1..31 |-> 99] >> }
 =============================================================================
